@@ -364,3 +364,55 @@ def run(m):
         w = "L1==0"
     return {"failing": bool(v), "witness": w, "call": v[0]["source"] if v else "limit sweep", "result": v[0]["got"] if v else "ok"}
 '''
+
+
+# ---- "a limit only ever aborts the render": a ResourceLimitError raised while a path is resolved
+# ---- (e.g. {{ block.super }} renders the parent block under the limits) leaves get / get_async as
+# ---- that error -- it is never turned into an undefined value, which would ALTER the output
+
+REPLAY_SUPER_LIMIT = r'''
+def run(m):
+    import asyncio
+    from liquid import Environment, DictLoader
+    from liquid.exceptions import ResourceLimitError
+    src = {"base": "{% block b %}" + "x" * 40 + "{% endblock %}", "child": "{% extends 'base' %}{% block b %}[{{ block.super }}]{% endblock %}"}
+    full = Environment(extra=True, loader=DictLoader(src)).get_template("child").render()
+    bad = []
+    for limit in range(0, len(full) + 2):
+        class E(Environment):
+            output_stream_limit = limit
+        for a in (False, True):
+            t = E(extra=True, loader=DictLoader(src)).get_template("child")
+            try:
+                out = asyncio.run(t.render_async()) if a else t.render()
+                if out != full:
+                    bad.append((limit, a, out))
+            except ResourceLimitError:
+                pass
+    return {"violated": bool(bad), "observed": bad[:3], "witness": "limit-error-swallowed-while-resolving-a-path"}
+'''
+
+from contracts.common import render_node_contract  # noqa: E402
+
+for _sfx in ("", "_async"):
+    for _b in ("none", "scalar", "array"):
+        render_node_contract("C08", _sfx, _b, lambda: REPLAY)   # the render tag under a loop limit: only its own limit error (never TypeError)
+
+for _sfx in ("", "_async"):
+    for _cls in ("OutputStreamLimitError", "LoopIterationLimitError", "ContextDepthError", "LocalNamespaceLimitError"):
+        def _mkget(sfx, cls):
+            @contract("liquid.context:RenderContext.get" + sfx, prop="C08", name=f"get{sfx}[{cls} raised while an item is looked up propagates]")
+            def g(c):
+                env = mk_env(c, undefined=VClass("liquid.undefined", "Undefined"))
+                ctx = mk_ctx(c, env)
+                path = c.st.alloc(HList(items=[c.str("root"), c.any("segment")]))
+                def item(eng, st, a, k):
+                    st.log.append(("item-lookup",))
+                    return [(st, Raised(VExc(cls, (const(cls),))))]
+                c.summary("liquid.context:RenderContext.get_item" + sfx, item)
+                c.call(path, self_val=ctx, token=NONE)
+                c.raises(cls)
+                # the only normal exit is the one that never reaches the item lookup (root not bound)
+                c.ensures("no-value-is-made-up-after-a-limit-error", lambda r: z3.BoolVal(not any(e[0] == "item-lookup" for e in r.st.log)))
+                c.replay("code", code=REPLAY_SUPER_LIMIT)
+        _mkget(_sfx, _cls)
